@@ -620,6 +620,8 @@ func main() {
 	srv := rig.Start(root, true)
 	srv.Register("c18f/*/*", false, 3600, 0, 65536)
 	srv.Register("c18s/*/*", false, 3600, 0, 65536)
+	srv.Register("c18i/*/*", false, 1, 0, 65536) // idle close after 1 s, immediate write
+	srv.Register("c18j/*/*", false, 1, 1, 65536) // idle close after 1 s, 1 s write interval
 	e := &env{srv: srv, h: srv.Zeus.GetHydra()}
 
 	type job struct {
@@ -750,6 +752,19 @@ func main() {
 		}
 	}
 	run.Meta.Extra["forced_cases_with_two_live"] = late
+	// idle close vs. a request that holds a vigil on the instance it was given
+	for _, ir := range e.idleScenarios() {
+		d := map[string]interface{}{"kind": ir.kind, "observed": ir.script, "evicted": ir.evicted}
+		idx := run.Add(coqCase(nil, result{}), d, !ir.inconcl)
+		run.Hist(ir.kind)
+		if ir.inconcl {
+			run.Hist("idle_vigil_inconclusive")
+		}
+		if ir.evicted {
+			run.Violate(idx, "served by the current instance", "instance_evicted_while_request_holds_vigil",
+				"the idle listener closed / removed the instance from the map while a request that had summoned it held a vigil on it")
+		}
+	}
 	// stress
 	rounds, dur := 6, 1500*time.Millisecond
 	if a.Tier == "thorough" {
